@@ -22,8 +22,25 @@ def ser(res, exc):
     return GE.c_expr(res) if exc is None else f"(EErr {GE.EXC.get(exc, 9)})"
 
 
+def self_intervened(e) -> bool:
+    """Does a term of the expression contain a variable intervened on itself (X @ X)? Summing over X then also moves the subscript: the DSL has
+    no way to sum the child alone, so 'the same function' is not defined for rewrites that introduce or move such sums; only the model decides."""
+    from y0.dsl import Fraction, Probability, Product, Sum
+    if isinstance(e, Probability):
+        return any(any(i.name == v.name for i in getattr(v, "interventions", ())) for v in (*e.children, *e.parents))
+    if isinstance(e, Sum):
+        return self_intervened(e.expression)
+    if isinstance(e, Product):
+        return any(self_intervened(x) for x in e.expressions)
+    if isinstance(e, Fraction):
+        return self_intervened(e.numerator) or self_intervened(e.denominator)
+    return False
+
+
 def sem_check(result, reference, what, seed=0):
     """None when result and reference denote the same function (or the oracle does not apply)."""
+    if self_intervened(result) or self_intervened(reference):
+        return None
     try:
         w = SEM.same_function(reference, result, seed=seed)
     except SEM.Unsupported:
